@@ -301,7 +301,7 @@ func checkWrapperGetSet(p *Prog, r *Report) {
 	for _, f := range []*ssa.Function{gf, sf} {
 		good := false
 		eachInstr(f, func(ins ssa.Instruction) {
-			if bo, ok := ins.(*ssa.BinOp); ok && bo.Op == token.EQL {
+			if bo, ok := ins.(*ssa.BinOp); ok && (bo.Op == token.EQL || bo.Op == token.NEQ) {
 				for _, pr := range [][2]ssa.Value{{bo.X, bo.Y}, {bo.Y, bo.X}} {
 					if key, ok := tagGetOf(pr[1]); ok && key == "json" && pr[0] == ssa.Value(f.Params[1]) {
 						good = true
@@ -342,16 +342,24 @@ func checkEqualHelpers(p *Prog, r *Report) {
 			return
 		}
 		nRet++
-		v := ret.Results[0]
-		if cb, ok := constBool(v); ok {
-			if cb {
+		// the result is false, or Equal(r1, r2); an && of the ID test and the
+		// call reads as a phi of exactly those two
+		vals := []ssa.Value{ret.Results[0]}
+		if phi, ok := ret.Results[0].(*ssa.Phi); ok {
+			vals = phi.Edges
+			nRet++ // the short-circuit edge plays the role of the early return
+		}
+		for _, v := range vals {
+			if cb, ok := constBool(v); ok {
+				if cb {
+					okStrict = false
+				}
+				continue
+			}
+			c, _ := callOf(v)
+			if c == nil || c.Common().StaticCallee() != eq || c.Common().Args[0] != ssa.Value(eqs.Params[0]) || c.Common().Args[1] != ssa.Value(eqs.Params[1]) {
 				okStrict = false
 			}
-			return
-		}
-		c, _ := callOf(v)
-		if c == nil || c.Common().StaticCallee() != eq || c.Common().Args[0] != ssa.Value(eqs.Params[0]) || c.Common().Args[1] != ssa.Value(eqs.Params[1]) {
-			okStrict = false
 		}
 	})
 	r.decide(okStrict && nRet >= 2, "C17.equal", "EqualStrict:shape", p.pos(eqs.Pos()), "false when the IDs differ, otherwise Equal(r1, r2)", "EqualStrict is not 'IDs equal and Equal(r1, r2)'")
@@ -375,7 +383,7 @@ func checkEqualHelpers(p *Prog, r *Report) {
 // evalEqualToMany: all attribute/type comparisons succeed; one to-many
 // relationship whose values are not DeepEqual, with the given emptiness.
 func evalEqualToMany(p *Prog, eq *ssa.Function, nonEmpty1, nonEmpty2 bool) ([]string, int) {
-	in := &interp{p: p, f: eq, maxPaths: 30000, maxVisit: 2, structuralNames: true}
+	in := &interp{p: p, f: eq, maxPaths: 30000, maxVisit: 2, structuralNames: true, inline: smallHelper}
 	in.callHook = func(st *istate, c *ssa.Call, args []*aval) *aval {
 		cc := c.Common()
 		if sc := cc.StaticCallee(); sc != nil {
